@@ -13,7 +13,7 @@ from mc.run import Stats, explore
 
 ASSUME = [
     "project 2025-01-06 +4w, default calendar, UTC, 1 h resolution (thorough adds 30 min); efforts 90/150/60/40 min so that predecessors end mid-slot",
-    "gap durations are calendar time (min, h, d = 24 h, w = 7 d, m = 30 d, y = 365 d - the units table of the implementation)",
+    "gap durations are calendar time (min, h, d = 24 h, w = 7 d, m = 30 d, y = 365 d - the units table of the implementation); gaplength (forward only) = that many working hours (d = 8 h, w = 40 h) of the project calendar, counted in whole slots from the slot holding the predecessor's end",
     "ALAP projects: deadlines (`end`) only on tasks without successors; on-start edges are not generated in ALAP (not claimed)",
     "a task with an own `start` (forward) / own `end` (backward) is not judged; a date inherited from a container is not a pin of its own",
     "only scheduled tasks are judged (unscheduled ones are C11's business)",
@@ -159,6 +159,7 @@ def universe(tier):
                                     continue
                                 yield {"sk": sk, "edges": edges, "kg": kg, "sp": spelling, "pin": pin, "shared": shared, "mode": mode}
     yield from longgaps(tier)
+    yield from mixedgaps(tier)
 
 
 LONG_GAPS = ["1m", "2m", "1.5m", "1y", "5w", "45d", "1000h", "0.5y"]
@@ -193,7 +194,39 @@ def longgap_spec(it):
     return {"dur": "26m", "alap": it["mode"] != "asap", "resources": [{"id": "r1"}, {"id": "r2"}, {"id": "r3"}], "tasks": tasks}
 
 
+def mixedgaps(tier):
+    """the same duration TEXT used as elapsed time (gapduration) and as working time (gaplength / maxgapduration) in one project"""
+    for txt in ("1d", "2d", "1w", "0.5w", "2h", "90min"):
+        for form in ("len-first", "dur-first", "same-edge-max", "other-task-len"):
+            for alap in (False, True):
+                for L in (60, 30, 15):
+                    if L != 60 and (alap or txt not in ("2h", "90min", "1d")):
+                        continue
+                    yield {"kind": "mixedgap", "txt": txt, "form": form, "alap": alap, "L": L}
+
+
+def mixedgap_spec(it):
+    g = it["txt"]
+    a = {"id": "a", "effort": 120, "alloc": ["r1"]}
+    x = {"id": "x", "effort": 300, "alloc": ["r2"]}
+    b = {"id": "b", "effort": 60, "alloc": ["r3"]}
+    tasks = [a, x, b]
+    if it["form"] == "len-first":
+        b["deps"] = [{"ref": "a", "gaplen": g}, {"ref": "x", "gap": g}]
+    elif it["form"] == "dur-first":
+        b["deps"] = [{"ref": "x", "gap": g}, {"ref": "a", "gaplen": g}]
+    elif it["form"] == "same-edge-max":
+        b["deps"] = [{"ref": "x", "gap": g, "maxgap": g}]
+    else:
+        tasks.insert(2, {"id": "c", "effort": 60, "alloc": ["r1"], "deps": [{"ref": "a", "gaplen": g}]})
+        b["deps"] = [{"ref": "x", "gap": g}]
+    return {"dur": "8w", "alap": it["alap"], "res_min": it.get("L", 60) if it.get("L", 60) != 60 else None,
+            "resources": [{"id": "r1"}, {"id": "r2"}, {"id": "r3"}], "tasks": tasks}
+
+
 def to_spec(it):
+    if it.get("kind") == "mixedgap":
+        return mixedgap_spec(it)
     if it.get("kind") == "longgap":
         return longgap_spec(it)
     return build(it["sk"], [tuple(e) for e in it["edges"]], tuple(it["kg"]), it["sp"], it["pin"], it["shared"], it["mode"])
